@@ -7,6 +7,7 @@ package main
 import (
 	"fmt"
 	"go/ast"
+	"go/constant"
 	"go/token"
 	"go/types"
 	"regexp"
@@ -20,8 +21,9 @@ import (
 func init() {
 	register(&Rule{ID: "R-printer-twins", Floor: 36, Run: rulePrinterTwins,
 		Doc: "parser/ast and analyzer/ast hold twin structs for the same source construct (paired through the analyzer function that maps one to the other, equal Kind() constant names, or the Analyzed name prefix). " +
-			"For every pair where both have a String() method the printed skeleton must agree: the set of keyword tokens and the set of punctuation tokens of all string literals in the two methods (format verbs removed, whitespace normalised, literals inside panic() ignored) is the same; " +
-			"a keyword literal that carries its trailing separator in one twin carries it in the other (\"event \" vs \"event\" glues the keyword to the next token); a field value that one twin passes through an escaping helper before formatting is passed through a helper in the other as well. " +
+			"For every pair where both have a String() method the printed skeleton must agree: the set of keyword tokens and the set of punctuation tokens of all string literals of the two printers (format verbs removed, whitespace normalised, literals inside panic() ignored) is the same. " +
+			"The printer is the method together with the text-producing functions and own methods it calls (inlined, parameters bound to the receiver fields passed) and the named string constants it uses; when the sets differ, the String() methods of the concrete component values it prints (explicitly or through a fmt function) are followed as well, then those of all struct components; " +
+			"a keyword literal that carries its trailing separator in one twin carries it in the other (\"event \" vs \"event\" glues the keyword to the next token); a field value that one twin passes through an escaping function before formatting (a text→text function without a body in the module, reached directly or through helpers) is passed through one in the other as well. " +
 			"Further, every syntax-bearing field of the parser struct has a counterpart in the analyzed twin (otherwise the analyzed printer cannot print it at all). " +
 			"Necessary: both printers emit source text for the same grammar production; a token only one of them emits means one of the two outputs does not parse back to the same program. " +
 			"Conservative: only a keyword/punctuation token present on one side and absent on the other, a glued keyword, an escaping asymmetry, or a lost field is a violation; everything else is informational."})
@@ -36,38 +38,337 @@ type travSkeleton struct {
 
 var travVerbRe = regexp.MustCompile(`%[-+# 0]*[0-9]*(\.[0-9]+)?[a-zA-Z]`)
 
-func travSkeletonOf(p *packages.Package, m *travModel, fd *ast.FuncDecl) *travSkeleton {
+// travSkeletonOf computes the printed skeleton of a String() method from the
+// resolved program, not from where the literals happen to be written: calls
+// whose callee has a body in the module and returns text (a helper function,
+// a method of the receiver, the String() of a concrete component — called
+// explicitly or implicitly by handing the component to a fmt function) are
+// inlined, with the callee's parameters bound to the receiver fields the
+// arguments stand for. So a literal counts for the construct whether it is
+// written in the method, in an extracted helper or in a component printer, and
+// "the field is passed through an escaping function" is decided where the
+// transformation really happens (a text→text call that has no body in the module,
+// e.g. (*strings.Replacer).Replace), however many wrappers lie in between.
+//
+// components=false: only the printer's own code is inlined (functions without
+// receiver and methods of the same struct — what extract-helper / extract-method
+// produce). components=true: the String() methods of concrete component values
+// (called explicitly, or implicitly through a fmt function) are followed as well.
+func travSkeletonOf(p *packages.Package, m *travModel, fd *ast.FuncDecl, components bool) *travSkeleton {
 	sk := &travSkeleton{words: map[string]bool{}, puncts: map[string]bool{}, glued: map[string]bool{}, spaced: map[string]bool{}, helpers: map[string]string{}}
-	info := p.TypesInfo
-	var recv types.Object
-	if len(fd.Recv.List[0].Names) > 0 {
-		recv = info.Defs[fd.Recv.List[0].Names[0]]
+	w := &travSkelWalker{m: m, sk: sk, active: map[*types.Func]bool{}, done: map[string]bool{}, components: components}
+	if fn, _ := p.TypesInfo.Defs[fd.Name].(*types.Func); fn != nil {
+		if rv := fn.Type().(*types.Signature).Recv(); rv != nil {
+			w.self = travNamed(rv.Type())
+		}
 	}
-	var visit func(n ast.Node) bool
-	visit = func(n ast.Node) bool {
+	env := map[types.Object]string{}
+	if len(fd.Recv.List) > 0 && len(fd.Recv.List[0].Names) > 0 {
+		if recv := p.TypesInfo.Defs[fd.Recv.List[0].Names[0]]; recv != nil {
+			env[recv] = travOriginRecv
+		}
+	}
+	if fn, _ := p.TypesInfo.Defs[fd.Name].(*types.Func); fn != nil {
+		w.active[fn] = true
+	}
+	w.body(&travDecl{Fd: fd, Pkg: p}, env, 0)
+	return sk
+}
+
+// origin of a value inside a (possibly inlined) printer body: "" = unrelated to
+// the receiver, travOriginRecv = the twin's receiver itself, otherwise the name of
+// the receiver field the value is (a part of).
+const travOriginRecv = "\x00recv"
+
+const travSkelMaxDepth = 4
+
+type travSkelWalker struct {
+	m          *travModel
+	sk         *travSkeleton
+	active     map[*types.Func]bool // inlining stack (recursion guard)
+	done       map[string]bool      // callee + binding already inlined
+	self       *types.Named         // the struct whose printer is summarised
+	components bool                 // follow the printers of component values too
+}
+
+// own: the callee is part of the printer itself — a plain function, or a method of the printed struct.
+func (w *travSkelWalker) own(sg *types.Signature) bool {
+	if sg.Recv() == nil {
+		return true
+	}
+	return w.self != nil && travNamed(sg.Recv().Type()) == w.self
+}
+
+func travIsStringType(t types.Type) bool {
+	if t == nil {
+		return false
+	}
+	b, ok := types.Unalias(t).Underlying().(*types.Basic)
+	return ok && b.Info()&types.IsString != 0
+}
+
+// travReturnsText: the first result is a string or a list of strings.
+func travReturnsText(sg *types.Signature) bool {
+	if sg.Results().Len() < 1 {
+		return false
+	}
+	t := types.Unalias(sg.Results().At(0).Type())
+	if travIsStringType(t) {
+		return true
+	}
+	if sl, ok := t.Underlying().(*types.Slice); ok {
+		return travIsStringType(sl.Elem())
+	}
+	return false
+}
+
+// travFormatter: a function that assembles text from its arguments without
+// changing them (the fmt print family, strings.Join / Repeat, builder writes).
+func travFormatter(fn *types.Func) bool {
+	if fn == nil || fn.Pkg() == nil {
+		return false
+	}
+	switch fn.Pkg().Path() {
+	case "fmt":
+		return true
+	case "strings":
+		switch fn.Name() {
+		case "Join", "Repeat", "WriteString", "WriteRune", "WriteByte", "String":
+			return true
+		}
+	}
+	return false
+}
+
+// stringerOf: the String() method (with a body in the module) of the concrete
+// named type of t (through one pointer); nil for interfaces.
+func (w *travSkelWalker) stringerOf(t types.Type) *types.Func {
+	n := travNamed(t)
+	if n == nil {
+		return nil
+	}
+	if _, isIfc := n.Underlying().(*types.Interface); isIfc {
+		return nil
+	}
+	for i := 0; i < n.NumMethods(); i++ {
+		f := n.Method(i)
+		if f.Name() != "String" || w.m.decls[f] == nil {
+			continue
+		}
+		sg := f.Type().(*types.Signature)
+		if sg.Params().Len() == 0 && sg.Results().Len() == 1 && travIsStringType(sg.Results().At(0).Type()) {
+			return f
+		}
+	}
+	return nil
+}
+
+// origin of an expression under env (see travOriginRecv).
+func (w *travSkelWalker) origin(d *travDecl, env map[types.Object]string, e ast.Expr, depth int) string {
+	info := d.Pkg.TypesInfo
+	switch x := ast.Unparen(e).(type) {
+	case *ast.Ident:
+		if o := info.Uses[x]; o != nil {
+			return env[o]
+		}
+		if o := info.Defs[x]; o != nil {
+			return env[o]
+		}
+	case *ast.SelectorExpr:
+		if sel := info.Selections[x]; sel != nil && sel.Kind() == types.FieldVal {
+			switch o := w.origin(d, env, x.X, depth); o {
+			case "":
+				return ""
+			case travOriginRecv:
+				return x.Sel.Name
+			default:
+				return o
+			}
+		}
+	case *ast.StarExpr:
+		return w.origin(d, env, x.X, depth)
+	case *ast.IndexExpr:
+		return w.origin(d, env, x.X, depth)
+	case *ast.SliceExpr:
+		return w.origin(d, env, x.X, depth)
+	case *ast.TypeAssertExpr:
+		return w.origin(d, env, x.X, depth)
+	case *ast.UnaryExpr:
+		if x.Op == token.AND {
+			return w.origin(d, env, x.X, depth)
+		}
+	case *ast.CallExpr:
+		if tv, ok := info.Types[x.Fun]; ok && tv.IsType() && len(x.Args) == 1 {
+			return w.origin(d, env, x.Args[0], depth) // conversion
+		}
+		// accessor: a niladic method whose body is `return <path over its receiver>`
+		se, ok := ast.Unparen(x.Fun).(*ast.SelectorExpr)
+		if !ok || len(x.Args) != 0 || depth > travSkelMaxDepth {
+			return ""
+		}
+		sel := info.Selections[se]
+		if sel == nil || sel.Kind() != types.MethodVal {
+			return ""
+		}
+		callee, _ := sel.Obj().(*types.Func)
+		cd := w.m.decls[callee]
+		ro := w.origin(d, env, se.X, depth)
+		if cd == nil || ro == "" || cd.Fd.Body == nil || len(cd.Fd.Body.List) != 1 || cd.Fd.Recv == nil || len(cd.Fd.Recv.List[0].Names) == 0 {
+			return ""
+		}
+		rs, ok := cd.Fd.Body.List[0].(*ast.ReturnStmt)
+		if !ok || len(rs.Results) != 1 {
+			return ""
+		}
+		cenv := map[types.Object]string{}
+		if r := cd.Pkg.TypesInfo.Defs[cd.Fd.Recv.List[0].Names[0]]; r != nil {
+			cenv[r] = ro
+		}
+		return w.origin(cd, cenv, rs.Results[0], depth+1)
+	}
+	return ""
+}
+
+func (w *travSkelWalker) inline(callee *types.Func, env map[types.Object]string, depth int) {
+	cd := w.m.decls[callee]
+	if cd == nil || cd.Fd.Body == nil {
+		return
+	}
+	var sig []string
+	for o, v := range env {
+		if v != "" {
+			sig = append(sig, o.Name()+"="+v)
+		}
+	}
+	sort.Strings(sig)
+	key := callee.FullName() + "|" + strings.Join(sig, ",")
+	if w.done[key] {
+		return
+	}
+	w.done[key] = true
+	w.active[callee] = true
+	w.body(cd, env, depth)
+	delete(w.active, callee)
+}
+
+// bind: environment of the callee for a call: parameters ↦ origins of the arguments, receiver ↦ origin of the receiver expression.
+func (w *travSkelWalker) bind(d *travDecl, env map[types.Object]string, call *ast.CallExpr, callee *types.Func, depth int) map[types.Object]string {
+	cd := w.m.decls[callee]
+	cenv := map[types.Object]string{}
+	cinfo := cd.Pkg.TypesInfo
+	if cd.Fd.Recv != nil && len(cd.Fd.Recv.List) > 0 && len(cd.Fd.Recv.List[0].Names) > 0 {
+		if se, ok := ast.Unparen(call.Fun).(*ast.SelectorExpr); ok {
+			if r := cinfo.Defs[cd.Fd.Recv.List[0].Names[0]]; r != nil {
+				cenv[r] = w.origin(d, env, se.X, depth)
+			}
+		}
+	}
+	i := 0
+	for _, f := range cd.Fd.Type.Params.List {
+		for _, nm := range f.Names {
+			if i < len(call.Args) {
+				if o := cinfo.Defs[nm]; o != nil {
+					cenv[o] = w.origin(d, env, call.Args[i], depth)
+				}
+			}
+			i++
+		}
+		if len(f.Names) == 0 {
+			i++
+		}
+	}
+	return cenv
+}
+
+func (w *travSkelWalker) body(d *travDecl, env map[types.Object]string, depth int) {
+	info := d.Pkg.TypesInfo
+	sk := w.sk
+	setOrigin := func(lhs ast.Expr, o string) {
+		id, ok := ast.Unparen(lhs).(*ast.Ident)
+		if !ok || o == "" {
+			return
+		}
+		obj := info.Defs[id]
+		if obj == nil {
+			obj = info.Uses[id]
+		}
+		if obj != nil && env[obj] == "" {
+			env[obj] = o
+		}
+	}
+	ast.Inspect(d.Fd.Body, func(n ast.Node) bool {
 		switch x := n.(type) {
+		case *ast.AssignStmt:
+			if len(x.Lhs) == len(x.Rhs) {
+				for i := range x.Lhs {
+					setOrigin(x.Lhs[i], w.origin(d, env, x.Rhs[i], depth))
+				}
+			}
+		case *ast.ValueSpec:
+			if len(x.Names) == len(x.Values) {
+				for i := range x.Names {
+					setOrigin(x.Names[i], w.origin(d, env, x.Values[i], depth))
+				}
+			}
+		case *ast.RangeStmt:
+			if x.Value != nil {
+				setOrigin(x.Value, w.origin(d, env, x.X, depth))
+			}
 		case *ast.CallExpr:
 			if id, ok := ast.Unparen(x.Fun).(*ast.Ident); ok {
 				if b, ok := info.Uses[id].(*types.Builtin); ok && b.Name() == "panic" {
 					return false
 				}
 			}
-			// helper applied to a receiver field
-			if callee := CalleeOf(info, x); callee != nil && callee.Pkg() != nil && strings.HasPrefix(callee.Pkg().Path(), ModPath) && len(x.Args) == 1 {
-				sg := callee.Type().(*types.Signature)
-				if sg.Recv() == nil && sg.Results().Len() == 1 {
-					if b, ok := sg.Results().At(0).Type().Underlying().(*types.Basic); ok && b.Kind() == types.String {
-						fld := ""
-						ast.Inspect(x.Args[0], func(y ast.Node) bool {
-							if se, ok := y.(*ast.SelectorExpr); ok {
-								if id, ok := ast.Unparen(se.X).(*ast.Ident); ok && recv != nil && info.Uses[id] == recv {
-									fld = se.Sel.Name
-								}
+			if tv, ok := info.Types[x.Fun]; ok && tv.IsType() {
+				return true
+			}
+			callee := CalleeOf(info, x)
+			if callee == nil {
+				return true
+			}
+			sg, _ := callee.Type().(*types.Signature)
+			if sg == nil {
+				return true
+			}
+			cd := w.m.decls[callee]
+			switch {
+			case cd != nil && cd.Fd.Body != nil && travReturnsText(sg) && depth < travSkelMaxDepth && !w.active[callee] && (w.components || w.own(sg)):
+				// a text-producing function with a body in the module: part of this printer
+				w.inline(callee, w.bind(d, env, x, callee, depth), depth+1)
+			case cd != nil && cd.Fd.Body != nil && travReturnsText(sg) && !w.own(sg):
+				// the printer of a component: its text is the component's, not this construct's
+			case travFormatter(callee):
+				if !w.components {
+					break
+				}
+				// values handed to a formatting function print through their String() method
+				for _, a := range x.Args {
+					t := info.TypeOf(a)
+					if t == nil {
+						continue
+					}
+					if sf := w.stringerOf(t); sf != nil && !w.active[sf] && depth < travSkelMaxDepth {
+						scd := w.m.decls[sf]
+						cenv := map[types.Object]string{}
+						if scd.Fd.Recv != nil && len(scd.Fd.Recv.List[0].Names) > 0 {
+							if r := scd.Pkg.TypesInfo.Defs[scd.Fd.Recv.List[0].Names[0]]; r != nil {
+								cenv[r] = w.origin(d, env, a, depth)
 							}
-							return true
-						})
-						if fld != "" {
-							sk.helpers[fld] = callee.Name()
+						}
+						w.inline(sf, cenv, depth+1)
+					}
+				}
+			case travReturnsText(sg) && travIsStringType(sg.Results().At(0).Type()):
+				// a text→text function that is not looked into (no body in the module, recursion, depth):
+				// the receiver fields among its text arguments are transformed before they are printed
+				for _, a := range x.Args {
+					if !travIsStringType(info.TypeOf(a)) {
+						continue
+					}
+					if o := w.origin(d, env, a, depth); o != "" && o != travOriginRecv {
+						if _, have := sk.helpers[o]; !have {
+							sk.helpers[o] = callee.Name()
 						}
 					}
 				}
@@ -80,61 +381,72 @@ func travSkeletonOf(p *packages.Package, m *travModel, fd *ast.FuncDecl) *travSk
 			if err != nil {
 				return true
 			}
-			sk.lits = append(sk.lits, s)
-			hasVerb := travVerbRe.MatchString(s)
-			t := travVerbRe.ReplaceAllString(s, "\x00")
-			// tokenise
-			var lastWord string
-			lastWasWordAtEnd := false
-			i := 0
-			rs := []rune(t)
-			for i < len(rs) {
-				r := rs[i]
-				switch {
-				case r == '\x00' || r == ' ' || r == '\n' || r == '\t' || r == '\r':
-					i++
-					lastWasWordAtEnd = false
-				case r == '_' || (r >= 'a' && r <= 'z') || (r >= 'A' && r <= 'Z'):
-					j := i
-					for j < len(rs) && (rs[j] == '_' || (rs[j] >= 'a' && rs[j] <= 'z') || (rs[j] >= 'A' && rs[j] <= 'Z') || (rs[j] >= '0' && rs[j] <= '9')) {
-						j++
-					}
-					w := string(rs[i:j])
-					sk.words[w] = true
-					lastWord = w
-					lastWasWordAtEnd = j == len(rs)
-					if j < len(rs) && (rs[j] == ' ') && j+1 == len(rs) {
-						if !hasVerb {
-							sk.spaced[w] = true
-						}
-					}
-					i = j
-				case strings.ContainsRune("()[]{},;", r):
-					sk.puncts[string(r)] = true
-					i++
-					lastWasWordAtEnd = false
-				default:
-					j := i
-					for j < len(rs) && !strings.ContainsRune("()[]{},; \n\t\r\x00_", rs[j]) && !(rs[j] >= 'a' && rs[j] <= 'z') && !(rs[j] >= 'A' && rs[j] <= 'Z') && !(rs[j] >= '0' && rs[j] <= '9') {
-						j++
-					}
-					if j == i {
-						j = i + 1
-					} else {
-						sk.puncts[string(rs[i:j])] = true
-					}
-					i = j
-					lastWasWordAtEnd = false
-				}
+			travSkelLiteral(sk, s)
+		case *ast.Ident:
+			// a named string constant of the module is the literal it names
+			if k, ok := info.Uses[x].(*types.Const); ok && k.Pkg() != nil && strings.HasPrefix(k.Pkg().Path(), ModPath) &&
+				travIsStringType(k.Type()) && k.Val().Kind() == constant.String {
+				travSkelLiteral(sk, constant.StringVal(k.Val()))
 			}
-			if lastWasWordAtEnd && !hasVerb && lastWord != "" {
-				sk.glued[lastWord] = true
-			}
+		case *ast.SelectorExpr:
+			// … also when it is qualified (pkg.Const): the Sel identifier is visited next
 		}
 		return true
+	})
+}
+
+// travSkelLiteral adds the tokens of one string literal to the skeleton.
+func travSkelLiteral(sk *travSkeleton, s string) {
+	sk.lits = append(sk.lits, s)
+	hasVerb := travVerbRe.MatchString(s)
+	t := travVerbRe.ReplaceAllString(s, "\x00")
+	// tokenise
+	var lastWord string
+	lastWasWordAtEnd := false
+	i := 0
+	rs := []rune(t)
+	for i < len(rs) {
+		r := rs[i]
+		switch {
+		case r == '\x00' || r == ' ' || r == '\n' || r == '\t' || r == '\r':
+			i++
+			lastWasWordAtEnd = false
+		case r == '_' || (r >= 'a' && r <= 'z') || (r >= 'A' && r <= 'Z'):
+			j := i
+			for j < len(rs) && (rs[j] == '_' || (rs[j] >= 'a' && rs[j] <= 'z') || (rs[j] >= 'A' && rs[j] <= 'Z') || (rs[j] >= '0' && rs[j] <= '9')) {
+				j++
+			}
+			w := string(rs[i:j])
+			sk.words[w] = true
+			lastWord = w
+			lastWasWordAtEnd = j == len(rs)
+			if j < len(rs) && (rs[j] == ' ') && j+1 == len(rs) {
+				if !hasVerb {
+					sk.spaced[w] = true
+				}
+			}
+			i = j
+		case strings.ContainsRune("()[]{},;", r):
+			sk.puncts[string(r)] = true
+			i++
+			lastWasWordAtEnd = false
+		default:
+			j := i
+			for j < len(rs) && !strings.ContainsRune("()[]{},; \n\t\r\x00_", rs[j]) && !(rs[j] >= 'a' && rs[j] <= 'z') && !(rs[j] >= 'A' && rs[j] <= 'Z') && !(rs[j] >= '0' && rs[j] <= '9') {
+				j++
+			}
+			if j == i {
+				j = i + 1
+			} else {
+				sk.puncts[string(rs[i:j])] = true
+			}
+			i = j
+			lastWasWordAtEnd = false
+		}
 	}
-	ast.Inspect(fd.Body, visit)
-	return sk
+	if lastWasWordAtEnd && !hasVerb && lastWord != "" {
+		sk.glued[lastWord] = true
+	}
 }
 
 func travSetDiff(a, b map[string]bool) []string {
@@ -194,17 +506,28 @@ func rulePrinterTwins(c *Ctx) []Obligation {
 		if fa == nil || fp == nil || fa.Body == nil || fp.Body == nil {
 			continue
 		}
-		sa, sp := travSkeletonOf(m.pA, m, fa), travSkeletonOf(m.pP, m, fp)
-		// tokens printed by the String() methods of component structs (arms, fields, literals
-		// wrappers …) belong to the construct's text as well: `_` may be printed by the match
-		// expression itself on one side and by a literal wrapper on the other
-		// (only consulted when the direct comparison finds a difference: component printers
-		// of derived fields, e.g. a recorded callback signature, exist on one side only)
-		if len(travSetDiff(sp.words, sa.words))+len(travSetDiff(sa.words, sp.words))+len(travSetDiff(sp.puncts, sa.puncts))+len(travSetDiff(sa.puncts, sp.puncts)) > 0 {
-			sa2, sp2 := travSkeletonOf(m.pA, m, fa), travSkeletonOf(m.pP, m, fp)
+		sa, sp := travSkeletonOf(m.pA, m, fa, false), travSkeletonOf(m.pP, m, fp, false)
+		differ := func(x, y *travSkeleton) bool {
+			return len(travSetDiff(x.words, y.words))+len(travSetDiff(y.words, x.words))+len(travSetDiff(x.puncts, y.puncts))+len(travSetDiff(y.puncts, x.puncts)) > 0
+		}
+		// The text of a construct may be split differently between the printer and the printers
+		// of its components on the two sides (`_` printed by the match expression itself on one
+		// side and by a literal wrapper on the other; an argument list joined in place on one
+		// side and by the argument-list struct on the other). Only consulted when the direct
+		// comparison finds a difference: first the component printers the method really calls
+		// (explicitly, or through a fmt function), then those of every struct-typed component
+		// (component printers of derived fields, e.g. a recorded callback signature, exist on one side only).
+		if differ(sp, sa) {
+			sa1, sp1 := travSkeletonOf(m.pA, m, fa, true), travSkeletonOf(m.pP, m, fp, true)
+			if !differ(sp1, sa1) {
+				sa.words, sa.puncts, sp.words, sp.puncts = sa1.words, sa1.puncts, sp1.words, sp1.puncts
+			}
+		}
+		if differ(sp, sa) {
+			sa2, sp2 := travSkeletonOf(m.pA, m, fa, false), travSkeletonOf(m.pP, m, fp, false)
 			travAddComponents(m.pA, m, a.T, sa2, map[*types.Named]bool{a.T: true}, 0)
 			travAddComponents(m.pP, m, p.T, sp2, map[*types.Named]bool{p.T: true}, 0)
-			if len(travSetDiff(sp2.words, sa2.words))+len(travSetDiff(sa2.words, sp2.words))+len(travSetDiff(sp2.puncts, sa2.puncts))+len(travSetDiff(sa2.puncts, sp2.puncts)) == 0 {
+			if !differ(sp2, sa2) {
 				sa.words, sa.puncts, sp.words, sp.puncts = sa2.words, sa2.puncts, sp2.words, sp2.puncts
 			}
 		}
@@ -289,7 +612,7 @@ func travAddComponents(p *packages.Package, m *travModel, t *types.Named, sk *tr
 		}
 		seen[n] = true
 		if fd := FuncDecl(p, n.Obj().Name(), "String"); fd != nil && fd.Body != nil {
-			sub := travSkeletonOf(p, m, fd)
+			sub := travSkeletonOf(p, m, fd, false)
 			for w := range sub.words {
 				sk.words[w] = true
 			}
